@@ -545,7 +545,7 @@ def gen_case(rng, ens, tier, max_trials=None):
         fixed = sorted(rng.sample(range(n), k))
     case = {"ens": ens, "rows": rows, "cell": cell, "fixed": fixed}
     if ens == "grand":
-        k = rng.choice([1, 1, 2])
+        k = rng.choice([1, 1, 2, 1, 1, 2, 1, 0])      # 0: no exchange atoms configured (the driver's default)
         case["template"] = [[rng.randint(-2, 2) for _ in range(3)] + [0, 0, 0] + [rng.choice([1, 8]), rng.choice([0, 0, 3]), 0, 0, 0, 0]
                             for _ in range(k)]
         case["nexch"] = rng.randint(0, 5)
@@ -618,7 +618,7 @@ def gen_case(rng, ens, tier, max_trials=None):
             oid += 1
     if ens == "grand":
         xs = [i for i in range(nobj) if objs[i]["kind"] == "exch"]
-        if len(xs) >= 2 and rng.random() < 0.35:
+        if len(xs) >= 2 and case.get("template") and rng.random() < 0.35:
             # a SWAP: a plain composite whose first member deletes a pre-selected particle and whose second member
             # inserts a pre-selected species (net particle change 0 or ±0); unlike two un-directed exchange moves in a
             # plain composite (recorded finding) this works on the pinned tree and must keep working
